@@ -72,7 +72,7 @@ def random_super_case(rng, algo, max_obj, max_sp, max_fam, coherent_only=True, c
         ro = gen.common_supersequence(rng, case["syn"])
         if ro is not None:
             case["root_order"] = ro
-    return case
+    return gen.hostile_family_names(rng, case)
 
 
 def cost_of_first(B, sols_or_none):
